@@ -254,6 +254,10 @@ def run_books(case):
                 'context': nm('A1', {'sheet': sheet, 'filename': f, 'directory': d}),
                 'context-slash': nm('A1', {'sheet': sheet, 'filename': f, 'directory': pre}),
                 'range-1': nm("'%s[%s]%s'!A1:A1" % (pre, f, qs)),
+                # a reference that names its workbook without a folder lives in the host workbook's folder
+                'inherit-dir': nm("'[%s]%s'!A1" % (f, qs), {'sheet': 'Other', 'filename': 'host.xlsx', 'directory': d}),
+                'inherit-dir-push': pushname("'[%s]%s'!A1" % (f, qs), {'sheet': 'Other', 'filename': 'host.xlsx', 'directory': d}),
+                'inherit-all': nm("'%s'!A1" % qs, {'sheet': 'Other', 'filename': f, 'directory': d}),
             }
             n += len(forms)
             ref = forms['quoted']
